@@ -9,10 +9,15 @@ target('c05c', ['harness/c05_krylov.cpp'], flags=['-DC05_COMPLEX'])
 
 def c05_jobs(tier):
     q = tier == 'quick'
-    return [job('krylov-real-plain',    'c05r', 'plain', threads=1, shards=1 if q else 8, timeout=3600),
-            job('krylov-complex-plain', 'c05c', 'plain', threads=1, shards=1 if q else 8, timeout=3600),
-            job('krylov-real-asan',     'c05r', 'asan',  threads=1, shards=4 if q else 8, timeout=7200),
-            job('krylov-complex-asan',  'c05c', 'asan',  threads=1, shards=4 if q else 8, timeout=7200)]
+    # "With maxiter = k every method returns the k-th iterate": a solve that never returns violates that clause, so a hang that
+    # reproduces on the retry is attributed to the open case and reported (key hang:<sub>).  Every call in this harness is bounded
+    # by maxiter <= a few hundred on n <= 24 unknowns; the quick jobs take < 60 s each on a loaded machine, so the watchdogs are
+    # >= 15x the measured time (a watchdog that fires without an open case is still only inconclusive).
+    TP, TA = (900, 1500) if q else (3600, 7200)
+    return [job('krylov-real-plain',    'c05r', 'plain', threads=1, shards=1 if q else 8, timeout=TP, hang_is_violation=True),
+            job('krylov-complex-plain', 'c05c', 'plain', threads=1, shards=1 if q else 8, timeout=TP, hang_is_violation=True),
+            job('krylov-real-asan',     'c05r', 'asan',  threads=1, shards=4 if q else 8, timeout=TA, hang_is_violation=True),
+            job('krylov-complex-asan',  'c05c', 'asan',  threads=1, shards=4 if q else 8, timeout=TA, hang_is_violation=True)]
 
 # Notes on oracle strength (rule 4 of the harness guide):
 #  * optimality uses the mixed bound of DESIGN.md (attained <= optimum (1 + 1e-6) + 1e-7 initial); "agree with a reference implementation"
